@@ -31,6 +31,16 @@ CHECKS = {
    note="Import names are an implementation choice (only uniqueness / non-collision / resolution are checked). Bounded: 3-5 operations per history, 2 files, 3 paths. Five root-cause classes are known findings (cross-file body, deleted type, force-import+discard, name declared after a write, parameter/result named like the import); a failure inside such a class is attributed to it. Trusted: TLC, go/parser, go/types.",
    technique="TLA+ spec + TLC exhaustive history enumeration + replay with go/types on every written file, delta-debugged finding keys",
    design_ref="DESIGN.md section 5 C09"),
+ "C05": dict(level="model_checking",
+   text="GoTypes.tla transcribes the Go specification's judgements (identity, underlying types, method sets, representability with exact symbolic constants 2^e+d up to 2^1024, assignability, comparison, conversion, default types) over a closed universe of 61 types; Grid.tla lets TLC evaluate every grid point (56x54 type pairs; ~40k constant x target points covering every boundary of every integer and float range) and check the meta-properties CmpSymmetric, IdenticalImpliesAssignable, AssignableImpliesConvertible, representability-is-an-interval, DefaultIdempotent. Every point is compared with gogen's AssignableConv, ConvertibleTo, ComparableTo (both argument orders) and Default on realised go/types objects; go/types on one-line programs validates the transcription on every point (S = T, else exit 2).",
+   note="Closed universe (no type parameters yet). Typed floating-point constants only with values exact in float32. Six root-cause classes of the pinned tree are known findings; a failing point inside a class is attributed to it. The builder constructs (var init, argument, return ...) asking the same question are exercised by C01. Trusted: TLC, go/types as validator.",
+   technique="TLA+ transcription of the Go spec judgements + TLC as exhaustive grid evaluator with meta-invariants + one implementation test per grid point",
+   design_ref="DESIGN.md section 5 C05"),
+ "C08": dict(level="model_checking",
+   text="Select.tla transcribes Go's selector rules (breadth-first by embedding depth, ambiguity at the shallowest depth incl. a type reached twice, promotion through embedded pointers, pointer receivers need addressable operands, unexported members of another package invisible, method sets for method expressions) over struct type graphs of up to four types. TLC enumerates all 3-type/1-field graphs and samples the 4-type/2-field/two-package family (exhaustive larger families in thorough), printing the verdict of every selector on a value, an addressable value and a pointer. Each graph is realised with go/types objects and the real CodeBuilder.Member (value form, assignment-target form, method expressions (T).m and (*T).m) is compared on kind, resolved object (Recorder) and type; types.LookupFieldOrMethod and types.NewMethodSet validate the transcription on every lookup (S = T, else exit 2).",
+   note="Graphs are realised through the go/types API (the builder's own type-declaration API is not under test here). Bounded: <= 4 struct types, <= 2 fields each, one member name, depth <= 3. Six known-finding groups (ambiguity accepted, needaddr accepted, MemberRef ignores methods / visibility, method-expression signatures). Trusted: TLC, go/types as validator.",
+   technique="TLA+ transcription of Go's selector rules + TLC enumeration/sampling of type graphs + one implementation test per lookup",
+   design_ref="DESIGN.md section 5 C08"),
 }
 
 def sh(cmd):
